@@ -174,6 +174,30 @@ class Labels:
             return t.d["closure"]
         return None
 
+    def _pointer_bases(self, fn, l, depth=0, seen=None):
+        seen = seen if seen is not None else set()
+        out = set()
+        if depth > 4 or l in seen:
+            return out
+        seen.add(l)
+        for d in fn.defs().get(l, []):
+            if d[0] != "stmt":
+                continue
+            rv = d[3]["rv"]
+            src = None
+            if "cast" in rv:
+                src = op_place(rv["a"])
+            elif "use" in rv:
+                src = op_place(rv["use"])
+            elif "ref" in rv:
+                src = rv["ref"]
+            elif "rawptr" in rv:
+                src = rv["rawptr"] if isinstance(rv["rawptr"], dict) and "l" in rv["rawptr"] else None
+            if src is not None and src["l"] != l:
+                out.add(src["l"])
+                out |= self._pointer_bases(fn, src["l"], depth + 1, seen)
+        return out
+
     def _run(self):
         changed = True
         guard = 0
@@ -199,6 +223,12 @@ class Labels:
                                     changed = True
                         if labels and self._add((fn.path, s["pl"]["l"]), labels):
                             changed = True
+                        if labels and self.through_mut and s["pl"]["p"] and s["pl"]["p"][0] == "deref":
+                            # a store through a pointer: what the pointer was made from holds the value too (vec![..] writes its
+                            # elements through a pointer cast from the box it then turns into the Vec)
+                            for base in self._pointer_bases(fn, s["pl"]["l"]):
+                                if self._add((fn.path, base), labels):
+                                    changed = True
                     t = b["term"]
                     if t["k"] == "call":
                         arg_labels = [self.op_labels(fn, a) for a in t["args"]]
